@@ -15,8 +15,9 @@ import (
 
 // The list model lives per URL (a second handle for the same URL is an alias of the same list).
 type c11Checker struct {
-	ml    map[int][]Pair // URL id -> model list
-	names map[string]bool
+	ml     map[int][]Pair // URL id -> model list
+	names  map[string]bool
+	cloned map[int]bool // copies whose list has not been looked at yet
 }
 
 func utf16Less(a, b string) bool {
@@ -125,6 +126,17 @@ func (c *c11Checker) After(w *World, ev *Event) []Failure {
 	switch {
 	case ev.Created >= 0:
 		c.ml[ev.Created] = model.ParseUrlencodedRaw(w.Cur[ev.Created].Query)
+		if uh := w.U[ev.Created]; uh != nil && uh.Prov == "cloned" {
+			if m, ok := c.ml[uh.From]; ok {
+				// the list of a copy starts as a copy of the source's list; an implementation that lets
+				// the copy parse its query afresh instead is accepted as well (c.cloned, below)
+				c.ml[ev.Created] = append([]Pair(nil), m...)
+				if c.cloned == nil {
+					c.cloned = map[int]bool{}
+				}
+				c.cloned[ev.Created] = true
+			}
+		}
 	case ev.Op.K == "set" && ev.Target >= 0 && ev.Op.W%9 == 7:
 		c.ml[ev.Target] = model.ParseUrlencodedRaw(w.Cur[ev.Target].Query)
 	case ev.TargetS >= 0 && ev.Mut:
@@ -156,6 +168,14 @@ func (c *c11Checker) After(w *World, ev *Event) []Failure {
 		ml := c.ml[sh.Of]
 		for _, p := range real {
 			note(p.Name)
+		}
+		if c.cloned[sh.Of] {
+			// first look at the list of a copy
+			delete(c.cloned, sh.Of)
+			if !pairsEqual(real, ml) && pairsEqual(real, model.ParseUrlencodedRaw(w.Cur[sh.Of].Query)) {
+				c.ml[sh.Of] = append([]Pair(nil), real...)
+				ml = c.ml[sh.Of]
+			}
 		}
 		if !pairsEqual(real, ml) {
 			clause := "C11.list"
